@@ -1,6 +1,7 @@
 package checks
 
 import (
+	"context"
 	"errors"
 	"fmt"
 	"io"
@@ -20,7 +21,7 @@ func init() {
 	register(&Check{
 		ID:    "C20",
 		Level: "fault_enumeration",
-		Rule: "every assignment of {ok, error, error-with-bytes, empty signature (nil), empty signature (zero-length)} to each key call of Sign1Message.Sign, Sign1, UntaggedSign1Message.Sign, Sign1Untagged, Signature.Sign, Countersignature.Sign, Countersign0, SignHashEnvelope (1 call each) and SignMessage.Sign with n = 1..4 signers (5^n vectors), with spy signers; " +
+		Rule: "every assignment of {ok, error, error-with-bytes, empty signature (nil), empty signature (zero-length), error of a Temporary()/Timeout() type, wrapped context.DeadlineExceeded, io.EOF with half a signature} to each key call of Sign1Message.Sign, Sign1, UntaggedSign1Message.Sign, Sign1Untagged, Signature.Sign, Countersignature.Sign, Countersign0, SignHashEnvelope (1 call each) and SignMessage.Sign with n = 1..4 signers (8^n vectors), with spy signers; " +
 			"every assignment of {ok, ErrVerification, other error} to each verifier call of Sign1/Untagged/Signature/Countersignature/VerifyCountersign0/VerifyHashEnvelope and SignMessage.Verify n = 1..4 (3^n); " +
 			"real built-in signers of all 7 algorithms with entropy readers failing after 0/1/8/31/64 bytes, EOF, and one-byte-at-a-time readers. Distinct = (entry point, fault vector). Thorough repeats the grid over random header content.",
 		Assume: []string{"Countersign0 returns a bare signature, not a message: an empty signature from a misbehaving signer is not judged there", "go1.23 standard library honours the caller's entropy reader for ECDSA and RSA-PSS"},
@@ -34,10 +35,38 @@ const (
 	fErrBytes
 	fEmptyNil
 	fEmptyZero
+	fErrTemporary // an error whose type has Temporary()/Timeout() = true (the shape of net and context errors)
+	fErrDeadline  // context.DeadlineExceeded wrapped with %w
+	fErrBytesEOF  // io.EOF together with bytes (a half-written result)
 	nSignFaults
 )
 
-var faultNames = []string{"ok", "err", "err+bytes", "empty-nil", "empty-zero"}
+// temporaryErr looks like a transient transport error; it wraps ErrInjected.
+type temporaryErr struct{}
+
+func (temporaryErr) Error() string   { return "injected temporary failure" }
+func (temporaryErr) Temporary() bool { return true }
+func (temporaryErr) Timeout() bool   { return true }
+func (temporaryErr) Unwrap() error   { return mon.ErrInjected }
+
+var errDeadline = fmt.Errorf("remote signer: %w", context.DeadlineExceeded)
+
+// failingFault reports whether fault f makes the signer return an error, and which.
+func failingFault(f int) (bool, error) {
+	switch f {
+	case fErr, fErrBytes:
+		return true, mon.ErrInjected
+	case fErrTemporary:
+		return true, temporaryErr{}
+	case fErrDeadline:
+		return true, errDeadline
+	case fErrBytesEOF:
+		return true, io.EOF
+	}
+	return false, nil
+}
+
+var faultNames = []string{"ok", "err", "err+bytes", "empty-nil", "empty-zero", "err-temporary", "err-deadline", "eof+bytes"}
 
 func faultSigner(alg cose.Algorithm, f int) *mon.SpySigner {
 	s := &mon.SpySigner{Alg: alg}
@@ -49,6 +78,11 @@ func faultSigner(alg cose.Algorithm, f int) *mon.SpySigner {
 		s.Out = append([]byte{}, mon.FixedSig...)
 	case fEmptyZero:
 		s.Out = []byte{}
+	case fErrTemporary, fErrDeadline:
+		_, s.Err = failingFault(f)
+	case fErrBytesEOF:
+		s.Err = io.EOF
+		s.Out = append([]byte{}, mon.FixedSig[:len(mon.FixedSig)/2]...)
 	}
 	return s
 }
@@ -135,7 +169,7 @@ func runC20(c *Ctx) {
 
 		// ---------- single-call signing entry points ----------
 		for f := 0; f < nSignFaults; f++ {
-			failing := f == fErr || f == fErrBytes
+			failing, wantErr := failingFault(f)
 			empty := f == fEmptyNil || f == fEmptyZero
 			type result struct {
 				err     error
@@ -198,7 +232,7 @@ func runC20(c *Ctx) {
 						rec.Violate("error-lost", key, "the signer failed but the signing call returned nil", in)
 						continue
 					}
-					if !errors.Is(res.err, mon.ErrInjected) {
+					if !errors.Is(res.err, wantErr) {
 						rec.Violate("error-replaced", key, "the signing call did not return the signer's error: "+res.err.Error(), in)
 					}
 					if len(res.bytes) > 0 {
@@ -290,9 +324,10 @@ func runC20(c *Ctx) {
 				}
 				first := -1
 				anyEmpty := false
+				var firstWant error
 				for j, f := range vec {
-					if first < 0 && (f == fErr || f == fErrBytes) {
-						first = j
+					if fails, want := failingFault(f); first < 0 && fails {
+						first, firstWant = j, want
 					}
 					if first < 0 && (f == fEmptyNil || f == fEmptyZero) {
 						anyEmpty = true
@@ -304,7 +339,7 @@ func runC20(c *Ctx) {
 						rec.Violate("error-lost", key, fmt.Sprintf("signer %d failed but Sign returned nil", first), in)
 						continue
 					}
-					if !errors.Is(err, mon.ErrInjected) {
+					if !errors.Is(err, firstWant) {
 						rec.Violate("error-replaced", key, "Sign did not return the signer's error: "+err.Error(), in)
 					}
 					if len(m.Signatures[first].Signature) > 0 {
